@@ -278,6 +278,9 @@ func Replay(args []string) {
 			if relic != "" && every > 0 && (n+seedv)%every == 0 {
 				got, out := cliVerdict(relic, dir, b, c, n)
 				r.Count("cli_"+got, 1)
+				if got == "accept" && got == c.Verdict && !c.NoChain {
+					r.Sample(map[string]any{"case": c, "relic_verify": got})
+				}
 				if got != c.Verdict {
 					fail("trust-cli", "`relic verify` says %s; the specification says %s (%.300s)", got, c.Verdict, out)
 				}
